@@ -973,9 +973,9 @@ struct InputFacts {
 fn input_facts(block_in: &Block) -> InputFacts {
     let mut erased = block_in.clone();
     let luau = Resolver::run(Mode::Luau, true, &mut erased);
-    let mut scratch = block_in.clone();
-    let visitor = Resolver::run(Mode::Visitor, false, &mut scratch);
-    let hannot = luau.targets_equal(&visitor);
+    // F09b / F09c are fixed: ScopeVisitor resolves binder annotations and type-function
+    // parameters the way Luau does; nothing is excused any more (Hannot is always true)
+    let hannot = true;
     let globals_used = luau.globals_used();
     InputFacts { luau, erased, hannot, globals_used }
 }
@@ -2384,10 +2384,10 @@ impl<'r> PGen<'r> {
             }
             names.push(p);
         }
-        let mut avoid = names.clone();
-        if let Some(own) = own_name {
-            avoid.push(own.to_owned());
-        }
+        // annotations may name the parameters and the function itself (they resolve in the
+        // enclosing scope; F09b fixed)
+        let _ = own_name;
+        let avoid: Vec<String> = Vec::new();
         let mut parts: Vec<String> = Vec::new();
         for p in &names {
             let t = self.maybe_ty(&avoid);
@@ -2542,7 +2542,12 @@ impl<'r> PGen<'r> {
             23..=24 => format!("{} += {}", self.prefix(0), self.expr(0)),
             25..=31 => self.call(0),
             32..=33 => {
-                if self.types {
+                if self.types && depth == 0 && self.rng.chance(1, 3) {
+                    // type function: parameters are declared in its body (F09c fixed)
+                    let p = self.decl_name();
+                    let q = self.use_name();
+                    format!("type function TF{}({}, w)\nreturn {}, {}, w\nend", self.rng.below(3), p, p, q)
+                } else if self.types {
                     let t = self.ty(&[]);
                     format!("type T{} = {}", self.rng.below(3), t)
                 } else {
@@ -2604,9 +2609,10 @@ impl<'r> PGen<'r> {
             73..=78 => {
                 let n = 1 + self.rng.below(3);
                 let vars: Vec<String> = (0..n).map(|_| self.decl_name()).collect();
+                let typed: Vec<String> = vars.iter().map(|v| format!("{}{}", v, self.maybe_ty(&[]))).collect();
                 let values = self.exprs(1, 2, 1);
                 let body = self.block(depth + 1, vars.clone(), true, false);
-                format!("for {} in {} do\n{}\nend", vars.join(", "), values, body)
+                format!("for {} in {} do\n{}\nend", typed.join(", "), values, body)
             }
             79..=86 => {
                 let mut s = format!("if {} then\n{}", self.expr(1), self.block(depth + 1, Vec::new(), in_loop, false));
